@@ -398,7 +398,7 @@ impl Check for C11 {
         "C11"
     }
     fn rule(&self) -> &'static str {
-        "case = mode graph with token sets that are not total (unmatched characters frequent) x input x history of next | peek_n(n), n in 0..6 | set_mode | set_offset; oracles = (agreement) the matches of peek_n(n) must equal what a scout iterator over the rest of the input returns for the next calls of next() in the unchanged current mode, stopping exactly at n, at a token with a transition in the current mode (inclusive) or at the end of input; the variant and the reported target mode must be the prescribed ones, and the following next() calls on the iterator itself must return the same matches; (purity) the same history with all peeks removed runs on a twin iterator and every non-peek observation (tokens, current_mode) must be identical; non-trivial = a peek whose window contains an unmatched character, or ends by mode switch, or reaches the end of input with >= 1 match"
+        "case = mode graph with token sets that are not total (unmatched characters frequent) x input x history of next | peek_n(n), n in 0..6 | set_mode | set_offset; oracles = (agreement) the matches of peek_n(n) must equal what a scout iterator over the rest of the input returns for the next calls of next() in the unchanged current mode, stopping exactly at n, at a token with a transition in the current mode (inclusive) or at the end of input; the variant and the reported target mode must be the prescribed ones, and the following next() calls on the iterator itself must return the same matches; (purity) the same history with all peeks removed runs on a twin iterator and every non-peek observation (tokens, current_mode, position(o)) must be identical; non-trivial = a peek whose window contains an unmatched character, or ends by mode switch, or reaches the end of input with >= 1 match"
     }
     fn cases(&self, thorough: bool) -> usize {
         if thorough {
@@ -413,11 +413,14 @@ impl Check for C11 {
         let nm = case.modes.len();
         let nops = 3 + d.below(if thorough { 30 } else { 18 });
         for _ in 0..nops {
-            case.ops.push(match d.weighted(&[10, 8, 2, 2]) {
+            case.ops.push(match d.weighted(&[10, 8, 2, 2, 2]) {
                 0 => Op::Next,
                 1 => Op::PeekN { n: crate::gen::gen_peek_n_opt(d, 6, true) },
                 2 => Op::SetMode { m: d.below(nm) },
-                _ => Op::SetOffset {
+                3 => Op::SetOffset {
+                    o: text.offs[d.below(text.offs.len())],
+                },
+                _ => Op::Position {
                     o: text.offs[d.below(text.offs.len())],
                 },
             });
@@ -438,7 +441,7 @@ impl Check for C11 {
             match op {
                 Op::Next | Op::PeekN { .. } => {}
                 Op::SetMode { m } if *m < nm => {}
-                Op::SetOffset { o } if *o <= input.len() && input.is_char_boundary(*o) => {}
+                Op::SetOffset { o } | Op::Position { o } if *o <= input.len() && input.is_char_boundary(*o) => {}
                 _ => return Ok(discard("discard_op")),
             }
         }
@@ -609,6 +612,20 @@ impl Check for C11 {
                         pos = text.char_index(*o).unwrap();
                         pending.clear();
                         ended = false;
+                    }
+                    Op::Position { o } => {
+                        // "nor the outcome of any later call": line/column answers are the same
+                        // with and without the peeks
+                        let a = PositionProvider::position(&it, *o);
+                        let b = PositionProvider::position(&twin, *o);
+                        if a != b {
+                            return Err(Failure::new(
+                                "c11.purity",
+                                format!("step {}: position({}) differs from the same history without peeks", step, o),
+                            )
+                            .exp_obs(b, a));
+                        }
+                        st.count("position_queries");
                     }
                     _ => {}
                 }
